@@ -285,6 +285,8 @@ impl Scenario for C11Threads {
             }
             cfg.classes = true;
             cfg.real_components = true;
+            cfg.recursion_bias = w.chance(1, 3);
+            cfg.warnful = w.chance(1, 3);
             if w.chance(1, 3) {
                 // import-heavy sets: many values governed by named types of other modules
                 cfg.value_import_bias = true;
